@@ -390,3 +390,46 @@ func TestC10CreatedPod(t *testing.T) {
 		settle(rt, rec, vs, map[string]interface{}{"inputs": json.RawMessage(b), "what": k.Desc}, len(b), "inputs: "+string(b))
 	})
 }
+
+// FuzzC10Annotation: coverage-guided fuzzing of the node override annotation value (and of a second
+// annotation key suffix) through the whole C10 oracle: creation, resources resolution, round trip.
+func FuzzC10Annotation(f *testing.F) {
+	f.Add(`{"requests":{"cpu":"250m"}}`, "c0", true, false)
+	f.Add(`{"limits":{"memory":"1Gi"},"requests":{"cpu":"0.5"}}`, "c1", false, true)
+	f.Add(`{`, "c0", true, true)
+	f.Add(`null`, "", false, false)
+	f.Fuzz(func(t *testing.T, val, container string, withSetting, affinity bool) {
+		for _, r := range container {
+			if !(r >= 'a' && r <= 'z' || r >= '0' && r <= '9' || r == '-') {
+				t.Skip() // annotation keys are restricted by the API server
+			}
+		}
+		if len(container) > 20 {
+			t.Skip()
+		}
+		k := c10Case{Template: letterTpl('A'), NodeLabels: map[string]string{"zone": "a"}, Affinity: affinity, NodeAnn: map[string]string{}}
+		k.Template.Spec.Containers = []corev1.Container{{Name: "c0", Image: "img:1"}, {Name: "c1", Image: "img:2", Resources: corev1.ResourceRequirements{Requests: corev1.ResourceList{corev1.ResourceCPU: resource.MustParse("100m")}}}}
+		k.NodeAnn[fmt.Sprintf(c10AnnKey, "ns1", "foo", container)] = val
+		var rr corev1.ResourceRequirements
+		switch {
+		case json.Unmarshal([]byte(val), &rr) != nil:
+			k.Desc = "malformed:" + container
+		default:
+			k.Desc = "override:" + container
+		}
+		if withSetting {
+			k.Setting = &edsv1.ExtendedDaemonsetSetting{ObjectMeta: metav1.ObjectMeta{Namespace: "ns1", Name: "s"}, Spec: edsv1.ExtendedDaemonsetSettingSpec{Containers: []edsv1.ExtendedDaemonsetSettingContainerSpec{{Name: "c0", Resources: corev1.ResourceRequirements{Limits: corev1.ResourceList{corev1.ResourceMemory: resource.MustParse("64Mi")}}}}},
+				Status: edsv1.ExtendedDaemonsetSettingStatus{Status: edsv1.ExtendedDaemonsetSettingStatusValid}}
+			k.Desc += ",setting:c0"
+		}
+		vs, err := runC10(k)
+		if err != nil {
+			t.Skip()
+		}
+		for _, v := range vs {
+			if !knownSigs[v.Sig] {
+				t.Fatalf("%s (annotation %q on container %q)", v, val, container)
+			}
+		}
+	})
+}
